@@ -294,8 +294,12 @@ func run(c *hx.Ctx) error {
 			br := buildOne(b)
 			res.Count(b.Key(), true)
 			if cl := buildClause(br); cl != "" {
-				res.AddBreak(proto.Break{Kind: "property", Name: cl, Case: rp.Case, Human: humanBuild(b), Impl: br.Status + " " + br.Msg + " @" + br.Site,
-					Model: "no panic, no crash, no hang, no leak", Finding: knownFor(strings.TrimPrefix(rp.Case, "C04 "))})
+				finding := knownFor(strings.TrimPrefix(rp.Case, "C04 "))
+				if finding == "" && hugeArrayClass(c, b, br, buildOne) {
+					finding = "huge-array-build-allocates" // confirmed by the counterfactual run
+				}
+				res.AddBreak(proto.Break{Kind: "property", Name: cl, Case: rp.Case, Human: humanBuild(b), Impl: br.Status + " " + br.Msg + " @" + br.Site + " " + br.Detail,
+					Model: "no panic, no crash, no hang, no leak", Finding: finding})
 			}
 			return nil
 		}
@@ -428,10 +432,37 @@ func run(c *hx.Ctx) error {
 		blines[i] = b.Line()
 	}
 	t0 = time.Now()
-	bans, err := buildRunner.Run(blines)
-	if err != nil {
-		return err
+	// sources with huge array types (known finding huge-array-build-allocates) make the child run out of memory or
+	// time: they run apart, so that they do not use up the allowance of crashes of the other inputs
+	var plainIdx, hugeIdx []int
+	for i, bc := range builds {
+		if _, ch := smallArrays(bc); ch {
+			hugeIdx = append(hugeIdx, i)
+		} else {
+			plainIdx = append(plainIdx, i)
+		}
 	}
+	bans := make([]string, len(builds))
+	for _, part := range []struct {
+		idx     []int
+		maxDown int
+	}{{plainIdx, 0}, {hugeIdx, 60}} {
+		lines := make([]string, len(part.idx))
+		for k, i := range part.idx {
+			lines[k] = blines[i]
+		}
+		pr := &lexh.Runner{Mode: "build", Timeout: buildRunner.Timeout, MaxDown: part.maxDown}
+		ans, err := pr.Run(lines)
+		if err != nil {
+			return err
+		}
+		for k, i := range part.idx {
+			bans[i] = ans[k]
+		}
+		buildRunner.Crashes += pr.Crashes
+		buildRunner.Hangs += pr.Hangs
+	}
+	res.Histogram["build-sources-with-huge-array-types"] = len(hugeIdx)
 	res.Notes = append(res.Notes, fmt.Sprintf("build child: %d inputs in %v", len(blines), time.Since(t0).Round(time.Millisecond)))
 	t0 = time.Now()
 	bshrunk := map[string]bool{}
@@ -449,11 +480,8 @@ func run(c *hx.Ctx) error {
 			continue
 		}
 		sig := clause + "|" + br.Msg + "|" + br.Site
-		if isOOM(br) && hugeArray(b) && c.HasFinding("huge-array-build-allocates") {
-			// hypothesis of the memory clause (known finding huge-array-build-allocates, replayed above with its
-			// exact minimal input): a memory blow-up on a source that declares an array type is that finding (the length
-			// may be a literal, a shift or a named constant)
-			res.Hist("build-oom-huge-array-source")
+		if hugeArrayClass(c, b, br, buildOne) {
+			res.Hist("build-huge-array-confirmed-by-counterfactual")
 			continue
 		}
 		if strings.HasPrefix(br.Status, "CRASH") || br.Status == "OOM" {
@@ -518,18 +546,71 @@ func sortedNames(m map[string][]byte) []string {
 	return n
 }
 
+// hugeArrayClass tells whether a memory blow-up or time-out of a build is the known finding
+// huge-array-build-allocates (its exact minimal input is replayed at the start of every run): Build takes memory and
+// time proportional to the declared length of an array type. Counterfactual test: the same sources with every huge
+// array length (a literal of 2^16 or more, a shift, a named constant) replaced by 1 — if Build then neither blows up
+// nor hangs, the failure is that finding; otherwise it is searched and reported like any other.
+func hugeArrayClass(c *hx.Ctx, b lexh.BuildCase, br lexh.BuildResult, buildOne func(lexh.BuildCase) lexh.BuildResult) bool {
+	if !(isOOM(br) || br.Status == "HANG") || !c.HasFinding("huge-array-build-allocates") {
+		return false
+	}
+	small, changed := smallArrays(b)
+	if !changed {
+		return false
+	}
+	r2 := buildOne(small)
+	return !isOOM(r2) && r2.Status != "HANG" && !strings.HasPrefix(r2.Status, "CRASH")
+}
+
 func isOOM(br lexh.BuildResult) bool {
 	return br.Status == "OOM" || strings.HasPrefix(br.Status, "CRASH") && strings.Contains(br.Detail, "OOM")
 }
 
-var hugeArrayRe = regexp.MustCompile(`\[[^\]\n]+\][A-Za-z_\[\*(]`)
+// an array type `[length]T` (not the key of a map type)
+var arrayTypeRe = regexp.MustCompile(`\[([^\[\]\n]+)\]([A-Za-z_\[\*(])`)
+var bigLitRe = regexp.MustCompile(`^[ \t]*(0[xX][0-9a-fA-F_]{5,}|[0-9][0-9_]{5,}|[0-9][0-9_]*[eE][0-9]+)[ \t]*$`)
+var identRe = regexp.MustCompile(`^[ \t]*[A-Za-z_][A-Za-z0-9_]*[ \t]*$`)
 
-// hugeArray reports whether a source of the case declares an array type `[length]T`.
-func hugeArray(b lexh.BuildCase) bool {
-	for _, d := range b.Files {
-		if hugeArrayRe.Match(d) {
-			return true
-		}
+// hugeLength reports whether the length expression of an array type can be huge: an integer literal of
+// 2^16 or more (five hexadecimal or six decimal digits, or an exponent), a shift, or a named constant.
+func hugeLength(expr string) bool {
+	return bigLitRe.MatchString(expr) || strings.Contains(expr, "<<") || strings.Contains(expr, ">>") ||
+		identRe.MatchString(expr) && !isTypeName(strings.TrimSpace(expr))
+}
+
+func isTypeName(id string) bool {
+	switch id {
+	case "string", "int", "int8", "int16", "int32", "int64", "uint", "uint8", "uint16", "uint32", "uint64", "uintptr",
+		"byte", "rune", "bool", "float32", "float64", "complex64", "complex128", "error", "any":
+		return true
 	}
 	return false
+}
+
+// smallArrays is the case with every array type of huge length given length 1 (`map[K]V` is not an array type).
+func smallArrays(b lexh.BuildCase) (lexh.BuildCase, bool) {
+	out := lexh.BuildCase{Kind: b.Kind, Entry: b.Entry, Files: map[string][]byte{}}
+	changed := false
+	for n, d := range b.Files {
+		var nd []byte
+		rest := d
+		for {
+			loc := arrayTypeRe.FindSubmatchIndex(rest)
+			if loc == nil {
+				nd = append(nd, rest...)
+				break
+			}
+			isMap := loc[0] >= 3 && string(rest[loc[0]-3:loc[0]]) == "map"
+			if isMap || !hugeLength(string(rest[loc[2]:loc[3]])) {
+				nd = append(nd, rest[:loc[3]+1]...)
+			} else {
+				nd = append(append(nd, rest[:loc[0]]...), "[1]"...)
+				changed = true
+			}
+			rest = rest[loc[3]+1:]
+		}
+		out.Files[n] = nd
+	}
+	return out, changed
 }
